@@ -10,6 +10,7 @@ import (
 	"testing"
 
 	"github.com/alecthomas/participle/v2"
+	"github.com/alecthomas/participle/v2/lexer"
 	"pgregory.net/rapid"
 
 	"verifharness/fixtures"
@@ -96,6 +97,32 @@ type okParenExpr struct {
 	V    string       `| @Ident`
 }
 
+// recursion that runs through a later member of a union whose first member is user code (Parseable)
+type lrUVal interface{ isLRUVal() }
+type lrUNum struct{ V string }
+
+func (lrUNum) isLRUVal() {}
+func (n *lrUNum) Parse(lex *lexer.PeekingLexer) error {
+	t := lex.Peek()
+	if t.EOF() || t.Value == "" || t.Value[0] < '0' || t.Value[0] > '9' {
+		return participle.NextMatch
+	}
+	n.V = lex.Next().Value
+	return nil
+}
+
+type lrUSum struct {
+	L  lrUVal `@@`
+	Op string `@"+"`
+	R  lrUVal `@@`
+}
+
+func (lrUSum) isLRUVal() {}
+
+type lrURoot struct {
+	V lrUVal `@@`
+}
+
 type staticLR struct {
 	name  string
 	lr    bool
@@ -103,15 +130,15 @@ type staticLR struct {
 	parse func(in string) (depth int, err error, panicMsg string)
 }
 
-func mkStatic[G any](name string, lr bool) staticLR {
+func mkStatic[G any](name string, lr bool, opts ...participle.Option) staticLR {
 	return staticLR{name: name, lr: lr, build: func() (bool, error) {
-		p, err := participle.Build[G]()
+		p, err := participle.Build[G](opts...)
 		return p != nil, err
 	}, parse: func(in string) (int, error, string) {
 		var depth int
 		var perr error
 		pm := guard(func() {
-			p, err := participle.Build[G]()
+			p, err := participle.Build[G](opts...)
 			if err != nil {
 				perr = err
 				return
@@ -130,6 +157,8 @@ var staticLRs = []staticLR{
 	mkStatic[lrAfterLookahead]("lrAfterLookahead", true), mkStatic[lrInGroupPlus]("lrInGroupPlus", true), mkStatic[lrInNegation]("lrInNegation", true),
 	mkStatic[lrIndirectA]("lrIndirectA", true), mkStatic[okIndirectA]("okIndirectA", false), mkStatic[okAfterPlus]("okAfterPlus", false),
 	mkStatic[okAfterNonEmpty]("okAfterNonEmpty", false), mkStatic[okParenExpr]("okParenExpr", false),
+	mkStatic[lrURoot]("lrUnionParseableFirst", true, participle.Union[lrUVal](&lrUNum{}, lrUSum{})),
+	mkStatic[lrURoot]("lrUnionParseableLast", true, participle.Union[lrUVal](lrUSum{}, &lrUNum{})),
 }
 
 func traceDepth(trace string) int {
@@ -149,7 +178,7 @@ func traceDepth(trace string) int {
 const c08Rule = "systems of 1-4 mutually referring productions (recursion through single- and multi-member unions) in which every " +
 	"reference placement is drawn from: head of first/later alternative, after single-/multi-term alternatives, after optional / " +
 	"starred / lookahead prefixes, inside groups, +, !, ~, lookahead bodies, nested alternatives, and look-alikes with a consuming term " +
-	"in front, built from any one of the productions; plus 14 static fixtures with direct struct recursion and the repository's example grammars (none left-recursive); oracle: independent nullability fix-point + left-edge " +
+	"in front, built from any one of the productions; plus 16 static fixtures with direct struct recursion or recursion through a union with a user-code member and the repository's example grammars (none left-recursive); oracle: independent nullability fix-point + left-edge " +
 	"reachability on the IR -- Build must fail iff some reachable production reaches itself before consuming; accepted grammars are " +
 	"parsed on sampled inputs under a crash journal and their Trace depth must stay <= 4*(grammar size+10)*(tokens+1); non-trivial = " +
 	"the reference graph has a cycle (left-recursive or a consuming look-alike); distinct by SHA-256 of the grammar"
